@@ -95,6 +95,8 @@ class StubVisitor:
     Checker) and a sink for errors.  `_check_dunder_call` for `__index__` returns its operand
     (ints are their own index)."""
 
+    in_union_decomposition = False
+
     def __init__(self):
         self.errors: List[Any] = []
         self._chk = get_checker()
